@@ -370,7 +370,7 @@ class SyncRunner:
                     self.gw.set_child_value(node, child, vtype, value, ack=ack)
             elif kind == "U":
                 _, nids, fwt, fwv, image = op
-                self.gw.tasks.ota.make_update(list(nids), fwt, fwv, image)
+                G.real_update_fw(self.gw, list(nids), fwt, fwv, image)
             elif kind == "T":
                 self.clock = op[1]
             elif kind == "M":
